@@ -36,6 +36,13 @@ class FixedIndex(IndexBase):
         """Get new args."""
         return (self._value,)
 
+    def __getstate__(self):
+        """Get state: none, ``__new__`` rebuilds (or finds) the whole object.
+
+        In particular the hash is recomputed in the receiving process.
+        """
+        return None
+
     def __new__(cls, value):
         """Create new FixedIndex."""
         self = FixedIndex._cache.get(value)
